@@ -20,7 +20,7 @@ ASSUMPTIONS = ['measure-zero singularities are excluded by construction: |theta|
                'to_stiefel_euler asserts theta.ndim<=2: batch shape (k,l) is a domain restriction for that row',
                'scale caps per row: choleskyL 10 (3 for float32), exp/cayley 30 (10 for float32), positive_real_exp 80 in float32 (overflow to inf is inherent)']
 
-SCALES = [0.1, 0.5, 1.62, 2.0, 10.0, 30.0, 100.0]
+SCALES = [1e-6, 0.1, 0.5, 1.62, 2.0, 10.0, 30.0, 100.0]  # 1e-6: tiny but non-zero parameter vectors (the quotient maps divide by the norm)
 BATCHES = [[], [1], [3], [2], [2, 3], [1, 2]]
 _rows = None
 
